@@ -34,12 +34,13 @@
 //	height <h>                      claim: the producer's trunk height                                       -> ok|differ
 //	task <H> <id> c=<h> | p         claim: a timer task of the producer's live state, registered by a
 //	                                transaction confirmed at height h / still pending                       -> ok|differ|absent
-//	mine [trunc=K] [fresh=1]        one round of the REAL Miner.mining on the producer (hook VerifMining) against a
+//	mine [trunc=K] [fresh=1] [pow=1]  one round of the REAL Miner.mining on the producer (hook VerifMining) against a
 //	                                scripted consensus whose ProcessBeforeMiner names the block K below the tip as
 //	                                truncate target: truncateForMiner, packBlock (timer tx, pool prefix, award),
 //	                                confirmBlockForMiner (ConfirmBlock, PlayForMiner), broadcast; the block as
 //	                                broadcast goes to the replica; after a truncation (or fresh=1) a fresh node
-//	                                replays the producer's trunk from genesis                -> h=<height> award=<amt> timer=<task ids|->
+//	                                replays the producer's trunk from genesis; pow=1: the consensus re-stamps the
+//	                                block in CalculateBlock (nonce, id, signature)          -> h=<height> award=<amt> timer=<task ids|->
 //
 // Oracle keys (impl-side, independent of the model): order-violates-dependency, order-violates-antidependency,
 // order-not-permutation, graph-misses-dependency, graph-misses-antidependency, graph-admits-unreplayable-order, order-not-replayable,
